@@ -143,3 +143,112 @@ def c04(out):
         exe = build_driver("drv_ctr", ["drv_ctr.c"] + HIST, vname)
         run_sharded(out, exe, ["--prop", "C04", "--mode", "model-tweaked"], vname, cases, label="ctr")
     out.assumptions += ["reference model is stateless w.r.t. tweak history, so any history dependence of the implementation shows as a mismatch"]
+
+
+# --------------------------------------------------------------------- C07
+@check("C07")
+def c07(out):
+    out.rule = ("parallel-ECB histories: structured = every block count 0..27 x {encrypt, decrypt} x {in place, out of place} per cipher; random = histories with counts up to 300 blocks, "
+                "remainders, zero-length calls, any legal key length, random placements in exact-extent guard buffers; every back end pinned; each judged call compared with the library's own "
+                "single-block functions block by block (Mantis: i-th tweak) and with the reference model; parallel_size checked to be a positive multiple of the block size.")
+    v = [("prod", n(out, 6000, 300000)), ("asan", n(out, 1200, 40000)), ("prod+W32", n(out, 1200, 40000))]
+    if out.tier == "thorough":
+        v += [("clang", 60000), ("prod+UNAL0", 30000), ("msan", 9000), ("prod+O0", 9000)]
+    for vname, cases in v:
+        exe = build_driver("drv_par", ["drv_par.c"] + HIST, vname)
+        run_sharded(out, exe, ["--prop", "C07", "--mode", "model", "--structured", str(3 * 28 * 2 * 2)], vname, cases)
+    out.assumptions += ["single-block functions are tied to the specification by C01/C02"]
+
+
+# --------------------------------------------------------------------- C10
+@check("C10")
+def c10(out):
+    out.rule = ("case index enumerates (cipher, entry point of 5 + 3 Mantis, key length 0..3 blocks+16 then 7 huge values; Mantis: size 0..40+huge x rounds 0..20+huge) completely, then repeats with "
+                "fresh random key bytes; key buffer holds exactly the bytes a correct call may read and abuts a PROT_NONE page; stack painted before each call; oracle: accept/reject per documented range, "
+                "accepted => outputs equal those of the zero-padded primary-size key through the same entry point and those of the reference model, rejected => return 0, schedule fields untouched and "
+                "later outputs unchanged. CTR and parallel entry points on every back end. distinct = distinct (entry, length, key bytes).")
+    out.exhaustive = False
+    v = [("prod", n(out, 12000, 400000)), ("asan", n(out, 6000, 60000)), ("msan", n(out, 4000, 40000))]
+    if out.tier == "thorough":
+        v += [("clang", 60000), ("prod+W32", 60000), ("prod+NEUTRAL", 60000), ("prod+O0", 20000)]
+    for vname, cases in v:
+        exe = build_driver("drv_keys", ["drv_keys.c"] + HIST, vname)
+        run_sharded(out, exe, ["--prop", "C10", "--mode", "c10"], vname, cases)
+    out.observed["key_length_dimension_exhaustive"] = "lengths 0..3*block+16 for every entry point are enumerated in the first 2*5*(3*16+17+7)*4/3 cases of every variant"
+    out.assumptions += ["exhaustive over the length dimension only; key bytes are sampled"]
+
+
+# --------------------------------------------------------------------- C14
+@check("C14")
+def c14(out):
+    out.rule = ("twin histories: H = generated history on a CTR or parallel-ECB object (all states: zeroed, fresh, keyed, mid-block, mid-batch, cleaned up, re-initialised) with 1..6 invalid calls injected "
+                "(NULL object, NULL key, key/tweak/counter lengths out of range incl. huge with short guarded buffers, bad Mantis rounds, sizes not a multiple of the block, NULL data pointers, use after cleanup), "
+                "H' = H without them; each on every back end; invalid calls must return 0, valid calls 1, and the transcripts of the valid calls must be identical. Plus the plain key-schedule functions "
+                "(set_key / set_tweaked_key / set_tweak / mantis_set_key / mantis_set_tweak) with invalid arguments on keyed schedules: return 0, documented fields and later outputs unchanged.")
+    v = [("prod", n(out, 4500, 200000)), ("asan", n(out, 900, 30000))]
+    if out.tier == "thorough":
+        v += [("clang", 40000), ("msan", 9000), ("prod+W32", 20000)]
+    for vname, cases in v:
+        exe = build_driver("drv_ctr", ["drv_ctr.c"] + HIST, vname)
+        run_sharded(out, exe, ["--prop", "C14", "--mode", "twin"], vname, cases, label="ctr")
+        exe = build_driver("drv_par", ["drv_par.c"] + HIST, vname)
+        run_sharded(out, exe, ["--prop", "C14", "--mode", "twin"], vname, cases, label="par")
+        exe = build_driver("drv_keys", ["drv_keys.c"] + HIST, vname)
+        run_sharded(out, exe, ["--prop", "C14", "--mode", "c14"], vname, cases * 4, label="keys")
+    out.assumptions += ["'unchanged' = all later results identical to the twin history (the property's own definition)",
+                        "behaviour of void functions on NULL and NULL data pointers of parallel functions are not asserted (not promised)"]
+
+
+# --------------------------------------------------------------------- C15 / C16 / C17 (allocator monitor)
+WRAP = ["-Wl,--wrap=malloc,--wrap=calloc,--wrap=realloc,--wrap=free,--wrap=posix_memalign,--wrap=aligned_alloc,--wrap=memalign"]
+
+
+def _life(out, prop, mode, variants):
+    for vname, cases in variants:
+        exe = build_driver("drv_life", ["drv_life.c", "allocmon.c"] + HIST, vname, extra=WRAP)
+        run_sharded(out, exe, ["--prop", prop, "--mode", mode], vname, cases)
+
+
+@check("C15")
+def c15(out):
+    out.rule = ("each case: 1..8 objects (CTR or parallel ECB, random cipher and back end) each with its own generated life-cycle history (use before init, init, keying, processing, cleanup, repeated cleanup, "
+                "use after cleanup, re-init, invalid calls), executed interleaved; 1 case in 40 adds a 400-round init/cleanup loop. Every allocator call the library makes is logged by a link-time wrapper "
+                "with (object, operation) attribution; the offline checker requires: no double/foreign/interior free, no allocator event in a call on an inert object or an invalid call, zero live blocks at "
+                "quiescence, expected return values; freed blocks are quarantined PROT_NONE so any use after free faults. distinct = distinct multi-object case hashes.")
+    v = [("prod", n(out, 2400, 120000)), ("asan", n(out, 600, 20000))]
+    if out.tier == "thorough":
+        v += [("clang", 30000), ("prod+W32", 10000), ("prod+NOSIMD", 10000)]
+    _life(out, "C15", "c15", v)
+    out.assumptions += ["allocator wrapped at link time (--wrap); only calls made while a library call is in progress are attributed to the library",
+                        "monitor validated each run by positive controls (dirty free, double free, leak)"]
+
+
+@check("C16")
+def c16(out):
+    out.rule = ("complete enumeration of {3 CTR + 3 parallel-ECB init functions} x {back ends available} x {every allocation request the init makes, found by a dry run of the monitor} x "
+                "{6 prior contents of the caller's handle: zero, 0xFF, 0xA5, random, stale copy of a live handle with ctx -> harness decoy, stale copy with ctx -> PROT_NONE}; repeated with fresh random bytes. "
+                "After the injected failure: init must return 0, leave no live block, and a battery of every other API function plus cleanup twice must return 0 without allocator events, without freeing or "
+                "writing the decoy and without faulting; a live bystander object must be unaffected.")
+    reps = n(out, 12, 400)
+    v = [("prod", 108 * reps), ("asan", 108 * max(2, reps // 4))]
+    if out.tier == "thorough":
+        v += [("clang", 108 * 50), ("prod+NOSIMD", 108 * 10), ("prod+W32", 108 * 10)]
+    _life(out, "C16", "c16", v)
+    out.exhaustive = True
+    out.observed["enumeration"] = "case index mod 108 = (init function 6) x (back end 3) x (prior class 6); every allocation request 1..N of the init is failed inside each case"
+    out.assumptions += ["allocation points are those observed by the monitor's dry run of each init on this build"]
+
+
+@check("C17")
+def c17(out):
+    out.rule = ("histories ending in cleanup for every object kind (CTR / parallel ECB) x cipher x back end, keyed with all-0xFF/random keys, tweaks and counters and left mid-batch so round keys, tweak, "
+                "counters and buffered keystream are non-zero; the allocator wrapper scans every byte of every block at the moment the library passes it to free(). A case counts as non-vacuous only if the "
+                "block held non-zero bytes right before cleanup (measured). Mandatory on the -O3 gcc and clang builds where a dead-store wipe would be optimised away.")
+    v = [("prod", n(out, 1800, 60000)), ("clang", n(out, 1800, 60000)), ("asan", n(out, 300, 6000))]
+    if out.tier == "thorough":
+        v += [("clang+O2", 10000), ("prod+O2", 10000), ("prod+NOSIMD", 6000), ("prod+W32", 6000), ("clang+Os", 6000)]
+    _life(out, "C17", "c17", v)
+    nz = out.counters.get("blocks_nonzero_before_cleanup", 0)
+    if nz < 10:
+        out.inconclusive.append({"reason": "wipe monitor saw fewer than 10 blocks that were non-zero before cleanup (%d)" % nz})
+    out.assumptions += ["block sizes taken from the matching allocation event; interior pointers (aligned contexts) are scanned over the whole underlying block"]
